@@ -4,7 +4,7 @@
 (* its text and its lexical class:                                          *)
 (*   "title"   unindented text            "one"   text indented by ONE space (= unindented)   *)
 (*   "blank"   empty line                 "comment"  `# ...` at column 0                      *)
-(*   "cmd"     `  $ c`     "cont"  `  > c`     "code"  `  [3]`                                  *)
+(*   "cmd"     `  $ c`     "cont"  `  > c`     "code"  `  [256]`                                  *)
 (*   "exp"     any other line indented by two spaces (incl. whitespace-only, extra indent,    *)
 (*             trailing blanks, `  # not a comment`)                                           *)
 (*                                                                         *)
@@ -27,7 +27,7 @@ Alphabet == { L("A title", "title", "A title"),
               L("   lead", "exp", " lead"),                \* three spaces: the third one belongs to the text
               L("  trail  ", "exp", "trail  "),
               L("  # not a comment", "exp", "# not a comment"),
-              L("  [3]", "code", "3"),
+              L("  [256]", "code", "256"),               \* any unsigned number is an exit code as written (the Markdown model has `[3]`)
               L("  [-1]", "exp", "[-1]"),
               L("  [3] x", "exp", "[3] x"),                \* ... and only when nothing follows the closing bracket                  \* only unsigned digits in brackets are an exit code
               L(" x", "one", " x") }
